@@ -203,6 +203,9 @@ def record(m: dict, b: bytes, origin: str, with_other=True) -> dict:
 
 # ----------------------------------------------------------------------------- random messages
 def rand_dt(rng: random.Random) -> dict:
+    if rng.random() < 0.12:     # all twelve octets below 0x80 (looks like text to a careless dispatch)
+        return {"y": rng.choice([2048, 2100, 2175, 2050]), "mo": rng.randint(1, 12), "d": rng.randint(1, 28), "dow": rng.randint(1, 7), "h": rng.randint(0, 23),
+                "mi": rng.randint(0, 59), "s": rng.randint(0, 59), "hs": rng.randint(0, 99), "dev": rng.choice([0, 60, 120]), "st": rng.choice([0, 1, 127])}
     y = rng.choice([1, 1999, 2000, 2024, 9999, rng.randint(1, 9999)])
     mo = rng.randint(1, 12)
     dim = [31, 29 if (y % 4 == 0 and y % 100 != 0) or y % 400 == 0 else 28, 31, 30, 31, 30, 31, 31, 30, 31, 30, 31][mo - 1]
